@@ -133,7 +133,9 @@ def valid_expr_texts():
         out.append('if {-2 %s 5} hue {2 ^ 3 ^ 2 %s 1}' % (a, a))
         out.append('assign v 2 hue {{v} %s {3 %s {v}} %s ({1})}' % (a, a, a))
     out += ['hue {{5}}', 'println {2 * {3}}', 'define f with a begin return a end hue {2 * {[f 3]}}', 'define f with a begin print a end define g [f 1]\ng',
-            'define f begin print 1 end define m "f"\nprint m', 'define f begin print 1 end define g [f]\n[g]', 'assign s "f" define f begin print s end f']
+            'define f begin print 1 end define m "f"\nprint m', 'define f begin print 1 end define g [f]\n[g]', 'assign s "f" define f begin print s end f',
+            # strings inside expressions are constants, not names of variables (D64)
+            'println {"abc"}', 'define k "s" assign v {k} println v', 'if {"a" == "a"} println 1', 'define k "s" if {k != "t"} println {k}', 'assign s "x" if {s == "x"} println s']
     return out
 
 
@@ -204,6 +206,12 @@ def run(ctx):
         toks = t.split()
         if len(toks) >= 3 and (o['ok'] or o.get('line') not in (None, '1')):
             ctx.nontriv(t)
+        # the valid expression forms are also run: an accepted one that stops the machine is a violation with its input
+        if kind == 'valid-expr' and o['ok'] and o.get('program') is not None:
+            st, evs = lang.run_program_impl(o['program'], lang.SMALL_WORLD, max_steps=3000)
+            # (arithmetic the script itself gets wrong -- a division by zero, an overflow -- is its own run-time error, not the compiler's)
+            if st.startswith('ABORT') and st not in ('ABORT:zerodiv', 'ABORT:overflow', 'ABORT:value'):
+                ctx.counterexample('C06/valid-expression-stops-the-machine', 'the accepted text %r stops the machine: %s after %r' % (t[:120], st, evs[-3:]), {'text': t})
     for t in ['\u00e9\u00e8 hue 5', 'set "\u4e2d\u6587"', 'define \u03c0 3', '\u0661\u0662:\u0663\u0660', 'print "\U0001F4A1"', 'hue \u00b2', 'x\u00a0y', '\ufeffhue 1']:
         o = observe(t)
         ctx.count()
